@@ -6,6 +6,8 @@ package drpcsignal
 import (
 	"sync"
 	"sync/atomic"
+
+	"storj.io/drpc/drpcdebug"
 )
 
 var closed = make(chan struct{})
@@ -25,11 +27,14 @@ func (c *Chan) do(f func()) bool {
 }
 
 func (c *Chan) doSlow(f func()) bool {
+	drpcdebug.Point("chan.doSlow.enter")
 	c.mu.Lock()
 	defer c.mu.Unlock()
+	drpcdebug.Point("chan.doSlow.locked")
 
 	if c.done == 0 {
 		defer atomic.StoreUint32(&c.done, 1)
+		defer drpcdebug.Point("chan.doSlow.store")
 		f()
 		return true
 	}
@@ -51,6 +56,7 @@ func (c *Chan) setClosed() {
 // one otherwise.
 func (c *Chan) Close() {
 	if !c.do(c.setClosed) {
+		drpcdebug.Point("chan.Close.close")
 		close(c.ch)
 	}
 }
@@ -65,6 +71,7 @@ func (c *Chan) Make(cap uint) {
 // Get returns the channel, allocating if necessary.
 func (c *Chan) Get() chan struct{} {
 	c.do(c.setFresh)
+	drpcdebug.Point("chan.Get.read")
 	return c.ch
 }
 
